@@ -77,15 +77,21 @@ def runC17 (line : String) : String :=
     match nat? w, nat? h, parseColor color, parseDith d, parseQuality q,
         (if nf.startsWith "nf=" then nat? (nf.drop 3).toString else none) with
     | some w, some h, some color, some d, some q, some nf =>
+      -- mips token: "0" none, "1" full chain, "m<N>" a partial chain of N >= 2 declared levels
+      let mipn : Option Nat := if mips.startsWith "m" then nat? (mips.drop 1).toString else none
+      let mipsOk := mips == "0" || mips == "1" ||
+        (match mipn with | some n => 2 ≤ n && n ≤ 32 | none => false)
       let c : C17Case := { encoderApi := api == "E", name, w, h, color, dith := d, q,
-                           mips := mips == "1", par := par == "1", mt := rep == "mt", nf }
-      if (api ≠ "E" ∧ api ≠ "F") ∨ (c.mips ∧ !c.encoderApi) then "bad-case" else
+                           mips := mips != "0", par := par == "1", mt := rep == "mt", nf }
+      if (api ≠ "E" ∧ api ≠ "F") ∨ (c.mips ∧ !c.encoderApi) ∨ !mipsOk then "bad-case" else
       match sup, encodersOf name with
       | none, _ => "err:UnsupportedFormat"
       | some _, none => "not-modelled"
       | some s, some encs =>
         let sizes : List (Nat × Nat) :=
-          if c.mips then (List.range (mipCount w h)).map (fun l => (mipDim w l, mipDim h l))
+          if c.mips then (List.range (match mipn with
+              | some n => min n (mipCount w h) | none => mipCount w h)).map
+            (fun l => (mipDim w l, mipDim h l))
           else [(w, h)]
         match sizes.mapM (fun (x : Nat × Nat) => levelRun c (some s) encs x.1 x.2) with
         | none | some [] => "not-modelled"
